@@ -13,8 +13,13 @@ package filetransfer_test
 // traversal, links that are lexically inside but resolve outside once an earlier link is in
 // place, and names that run through symlinks already present in dest; an archive whose
 // extraction returned an error is not extended (UntarDirectory stops at the first failing
-// entry, so every extension behaves identically). (2) PRNG archives of 4..8 entries over a
-// richer alphabet on three pre-populations of dest.
+// entry, so every extension behaves identically). (1b) the same enumeration over a second
+// alphabet (33 variants): symlink targets that pass THROUGH a link made by an earlier entry
+// (lexically inside dest, really outside; dangling or live), and regular / directory / hard-link
+// / symlink entries whose name EQUALS such a link or a dangling link already present in dest.
+// (2) PRNG archives of 4..8 entries over a richer alphabet on three pre-populations of dest;
+// link targets are also derived from the names of earlier entries plus ../. segments and names
+// are re-used from earlier links.
 
 import (
 	"archive/tar"
@@ -53,7 +58,8 @@ const (
 
 // c27Box is one reusable sandbox. prepop: 0 = dest does not exist, 1 = dest holds symlinks
 // p -> ../outside (directory), q -> ../CANARYNAME_top.txt (file), a regular file f and a real
-// directory d with the symlink d/l -> ../../outside,
+// directory d with the symlink d/l -> ../../outside, and two DANGLING symlinks whose real targets
+// are outside dest: dg -> ../outside/missing.txt and d/dg2 -> ../../missing_top.txt,
 // 2 = as 1 plus h, a hard link to ../outside/CANARYNAME_1.txt.
 type c27Box struct {
 	base   string // parent under which roots are created
@@ -97,6 +103,9 @@ func (b *c27Box) fillDest() {
 	ftMustWrite(filepath.Join(b.dest, "f"), "INSIDE-f", 0o644)
 	ftMustMkdir(filepath.Join(b.dest, "d"))
 	ftMustSymlink("../../outside", filepath.Join(b.dest, "d", "l"))
+	// dangling links whose real targets lie outside dest
+	ftMustSymlink("../outside/missing.txt", filepath.Join(b.dest, "dg"))
+	ftMustSymlink("../../missing_top.txt", filepath.Join(b.dest, "d", "dg2"))
 	if b.prepop == 2 {
 		if err := os.Link(filepath.Join(b.root, "outside", c27Canary1), filepath.Join(b.dest, "h")); err != nil {
 			panic("harness sandbox: " + err.Error())
@@ -123,6 +132,23 @@ var c27GzPool = sync.Pool{New: func() any {
 	return w
 }}
 
+// c27LinkText turns an entry's Target into the literal link text. "$ABS" is the absolute
+// path of <root>/outside. A target starting with "@" is written relative to dest and is
+// converted to be relative to the directory of the entry (e.g. name d/x, "@d/up/../n" ->
+// "../d/up/../n"), so that targets can be built from the names of earlier entries.
+func c27LinkText(e c27Entry, absOutside string) string {
+	t := strings.ReplaceAll(e.Target, "$ABS", absOutside)
+	if strings.HasPrefix(t, "@") {
+		n := filepath.Clean(filepath.FromSlash(e.Name))
+		up := ""
+		if !filepath.IsAbs(n) && n != ".." && !strings.HasPrefix(n, "../") {
+			up = strings.Repeat("../", strings.Count(n, "/"))
+		}
+		t = up + t[1:]
+	}
+	return t
+}
+
 func c27Archive(entries []c27Entry, absOutside string) []byte {
 	var buf bytes.Buffer
 	gz := c27GzPool.Get().(*gzip.Writer)
@@ -133,7 +159,7 @@ func c27Archive(entries []c27Entry, absOutside string) []byte {
 		if h.Mode == 0 {
 			h.Mode = 0o644
 		}
-		tgt := strings.ReplaceAll(e.Target, "$ABS", absOutside)
+		tgt := c27LinkText(e, absOutside)
 		h.Name = strings.ReplaceAll(h.Name, "$ABS", absOutside)
 		var body []byte
 		switch e.Type {
@@ -186,7 +212,7 @@ func c27Class(entries []c27Entry, prepop int) string {
 					chain = true
 				}
 			}
-			if prepop >= 1 && (under(p, "p") || under(p, "q") || under(p, "d/l")) {
+			if prepop >= 1 && (under(p, "p") || under(p, "q") || under(p, "d/l") || under(p, "dg") || under(p, "d/dg2")) {
 				preSym = true
 			}
 			if prepop == 2 && under(p, "h") {
@@ -197,7 +223,7 @@ func c27Class(entries []c27Entry, prepop int) string {
 			}
 		}
 		if e.Type == "sym" {
-			t := strings.ReplaceAll(e.Target, "$ABS", "/abs")
+			t := c27LinkText(e, "/abs")
 			if filepath.IsAbs(t) {
 				lexical = true
 			} else if r := filepath.Join(filepath.Dir(clean(e.Name)), t); r == ".." || strings.HasPrefix(r, "../") {
@@ -219,6 +245,48 @@ func c27Class(entries []c27Entry, prepop int) string {
 	return "plain"
 }
 
+// c27Features counts the structural situations the generator is meant to produce (evidence
+// counters; no influence on the verdict).
+func c27Features(r *verifkit.R, entries []c27Entry, prepop int) {
+	clean := func(s string) string { return filepath.Clean(filepath.FromSlash(s)) }
+	var links []string
+	for _, e := range entries {
+		n := clean(e.Name)
+		for _, l := range links {
+			if n == l {
+				r.Add("entry_named_like_earlier_symlink_"+e.Type, 1)
+				break
+			}
+		}
+		if prepop >= 1 && (n == "dg" || n == "d/dg2") {
+			r.Add("entry_named_like_preexisting_dangling_link_"+e.Type, 1)
+		}
+		if e.Type == "sym" {
+			// un-cleaned dest-relative walk of the target: does it pass through an earlier link?
+			t := c27LinkText(e, "/abs")
+			if !filepath.IsAbs(t) {
+				cur := filepath.Dir(n)
+				through := false
+				for _, seg := range strings.Split(t, "/") {
+					cur = filepath.Join(cur, seg)
+					for _, l := range links {
+						if cur == l {
+							through = true
+						}
+					}
+					if prepop >= 1 && (cur == "p" || cur == "d/l" || cur == "dg" || cur == "d/dg2" || cur == "q") {
+						through = true
+					}
+				}
+				if through {
+					r.Add("symlink_target_through_earlier_link", 1)
+				}
+			}
+			links = append(links, n)
+		}
+	}
+}
+
 // c27Run extracts one archive into the box and judges it. Returns the error of UntarDirectory.
 func c27Run(r *verifkit.R, b *c27Box, phase string, ci int, entries []c27Entry) error {
 	absOutside := filepath.Join(b.root, "outside")
@@ -236,13 +304,14 @@ func c27Run(r *verifkit.R, b *c27Box, phase string, ci int, entries []c27Entry) 
 	fp := fmt.Sprintf("prepop=%d|%s", b.prepop, strings.Join(desc, "|"))
 	r.Eval(fp, class != "plain")
 	r.Add("archives_"+class, 1)
+	c27Features(r, entries, b.prepop)
 	r.Add("entries_fed", len(entries))
 	if err == nil {
 		r.Add("extract_ok", 1)
 	} else {
 		r.Add("extract_refused", 1)
 	}
-	if n := c27CountDest(b.dest) - []int{0, 5, 6}[b.prepop]; n > 0 {
+	if n := c27CountDest(b.dest) - []int{0, 7, 8}[b.prepop]; n > 0 {
 		r.Add("objects_created_in_dest", n)
 	}
 	ch := ftDiff(b.snap, after)
@@ -306,23 +375,36 @@ func c27Variants() []c27Entry {
 	return v
 }
 
-func TestVerif_C27(t *testing.T) {
-	r := verifkit.Start(t, "C27", "untar")
-	r.Rule("one evaluation = one real UntarDirectory call on a sandbox with the outside snapshotted before/after; " +
-		"exhaustive part: every archive of <= 3 (thorough 4) entries over 84 (type,name,target) variants, extended only while extraction succeeds; " +
-		"PRNG part: 4..8 entries over a richer alphabet on 3 pre-populations; non-trivial = archive whose structural class is not 'plain' " +
-		"(traversal name/target, name or hard-link source through a symlink created earlier in the archive or already present in dest); distinct by pre-population + entry list")
-	r.Assume("UntarDirectory processes entries sequentially and returns at the first failing entry, so an archive whose prefix was refused need not be extended (prefix pruning of the exhaustive enumeration)")
-	r.Assume("the oracle observes names, type/permission bits, size, content, mtime, link count and symlink targets outside dest; reads of outside objects that leave no trace are not observed")
-	base := ftTempBase(t)
-	variants := c27Variants()
-	maxLen := r.N(3, 4)
-	r.Set("exhaustive_variants", len(variants))
-	r.Set("exhaustive_max_entries", maxLen)
+// Second exhaustive alphabet: what a symlink *target* resolves to once an earlier link is in
+// place, and what happens at a final component that is a (dangling or live) link. Names: r
+// (fresh top-level name), d/up (inside the real directory d), dg (pre-existing dangling link).
+// Targets: ".." (for d/up: lexically and really dest), and dest-relative "@" targets built from
+// the other names: d/up/../n (lexically dest/d/n; with d/up -> .. really <parent of dest>/n,
+// which does not exist: a dangling link out of dest), d/up/../outside/CANARYNAME_1.txt (a live
+// link out of dest), dg and r (links to links).
+var c27NamesB = []string{"r", "d/up", "dg"}
+var c27SymTargetsB = []string{"..", "@d/up/../n", "@d/up/../outside/" + c27Canary1, "@dg", "@r"}
+var c27HardTargetsB = []string{"f", "r", "dg", "d/up/../outside/" + c27Canary1}
 
-	// ---- exhaustive part: one case per first entry, DFS below it
-	r.ParCases("exh", len(variants), 4, func(ci int, _ *verifkit.Rand) {
-		b := &c27Box{base: filepath.Join(base, fmt.Sprintf("exh%d", ci))}
+func c27VariantsB() []c27Entry {
+	var v []c27Entry
+	for _, n := range c27NamesB {
+		v = append(v, c27Entry{Type: "reg", Name: n}, c27Entry{Type: "dir", Name: n})
+		for _, t := range c27SymTargetsB {
+			v = append(v, c27Entry{Type: "sym", Name: n, Target: t})
+		}
+		for _, t := range c27HardTargetsB {
+			v = append(v, c27Entry{Type: "hard", Name: n, Target: t})
+		}
+	}
+	return v
+}
+
+// c27Exhaustive runs every archive of <= maxLen entries over variants on pre-population 1.
+// One verifkit case per first entry; a prefix whose extraction failed is not extended.
+func c27Exhaustive(r *verifkit.R, base, phase string, variants []c27Entry, maxLen int) {
+	r.ParCases(phase, len(variants), 4, func(ci int, _ *verifkit.Rand) {
+		b := &c27Box{base: filepath.Join(base, fmt.Sprintf("%s%d", phase, ci))}
 		b.rebuild(1)
 		defer func() { ftRestorePerms(b.root); os.RemoveAll(b.root) }()
 		// extend(prefix): prefix was extracted without error; run every one-entry extension,
@@ -332,7 +414,7 @@ func TestVerif_C27(t *testing.T) {
 			var accepted [][]c27Entry
 			for _, v := range variants {
 				next := append(append([]c27Entry(nil), prefix...), v)
-				if err := c27Run(r, b, "exh", ci, next); err != nil {
+				if err := c27Run(r, b, phase, ci, next); err != nil {
 					r.Add("exh_pruned_prefixes", 1)
 				} else if len(next) < maxLen {
 					accepted = append(accepted, next)
@@ -343,25 +425,49 @@ func TestVerif_C27(t *testing.T) {
 			}
 		}
 		first := []c27Entry{variants[ci]}
-		if err := c27Run(r, b, "exh", ci, first); err != nil {
+		if err := c27Run(r, b, phase, ci, first); err != nil {
 			r.Add("exh_pruned_prefixes", 1)
 		} else if maxLen > 1 {
 			extend(first)
 		}
 	})
-	r.Exhaustive(false) // the PRNG part below is sampled; the exhaustive part is declared in info
-	r.Set("exhaustive_part", fmt.Sprintf("all archives of <=%d entries over %d variants on pre-population 1 (prefix-pruned)", maxLen, len(variants)))
+}
+
+func TestVerif_C27(t *testing.T) {
+	r := verifkit.Start(t, "C27", "untar")
+	r.Rule("one evaluation = one real UntarDirectory call on a sandbox with the outside snapshotted before/after; " +
+		"exhaustive parts: every archive of <= 3 (thorough 4) entries over 84 (type,name,target) variants, and over a second alphabet of 33 variants whose link targets pass " +
+		"through earlier links / dangle out of dest and whose names equal earlier or pre-existing links, extended only while extraction succeeds; " +
+		"PRNG part: 4..8 entries over a richer alphabet (targets derived from earlier entry names + ../. segments, names equal to earlier links) on 3 pre-populations; non-trivial = archive whose structural class is not 'plain' " +
+		"(traversal name/target, name or hard-link source through a symlink created earlier in the archive or already present in dest); distinct by pre-population + entry list")
+	r.Assume("UntarDirectory processes entries sequentially and returns at the first failing entry, so an archive whose prefix was refused need not be extended (prefix pruning of the exhaustive enumeration)")
+	r.Assume("the oracle observes names, type/permission bits, size, content, mtime, link count and symlink targets outside dest; reads of outside objects that leave no trace are not observed")
+	base := ftTempBase(t)
+	variants := c27Variants()
+	maxLen := r.N(3, 4)
+	r.Set("exhaustive_variants", len(variants))
+	r.Set("exhaustive_max_entries", maxLen)
+
+	// ---- exhaustive parts: one case per first entry, breadth-first below it
+	c27Exhaustive(r, base, "exh", variants, maxLen)
+	variantsB := c27VariantsB()
+	r.Set("exhaustive2_variants", len(variantsB))
+	c27Exhaustive(r, base, "exh2", variantsB, maxLen)
+	r.Exhaustive(false) // the PRNG part below is sampled; the exhaustive parts are declared in info
+	r.Set("exhaustive_part", fmt.Sprintf("all archives of <=%d entries over %d variants (exh) and over %d variants (exh2: link targets through earlier links, dangling links, names equal to links) on pre-population 1 (prefix-pruned)", maxLen, len(variants), len(variantsB)))
 
 	// ---- PRNG part
 	names := []string{"a", "b", "a/b", "a/b/c", "b/a", "a/c", "p/n", "p/" + c27Canary1, "p/sub/" + c27Canary2, "p", "q", "f", "h",
-		"d/n", "d/l", "d/l/n", "d/l/" + c27Canary1, "a/b/c/x",
+		"d/n", "d/l", "d/l/n", "d/l/" + c27Canary1, "a/b/c/x", "r", "d/up", "d/r", "dg", "dg", "d/dg2", "dg/x",
 		"../x", "a/../../x", "../destX/x", "../destX/CANARYNAME_x.txt", "$ABS/x", "$ABS/" + c27Canary1, ".", "a/.", "./a", "a//b", "a/b/../c", "..", "a/..", "../dest/a"}
 	symT := []string{".", "..", "../..", "../../..", "a", "b", "a/b", "../outside", "../../outside", "../outside/" + c27Canary1, "$ABS", "$ABS/" + c27Canary1,
-		"p", "q", "f", "p/sub", "../" + c27CanaryTop, "b/../..", "a/../..", "/"}
+		"p", "q", "f", "p/sub", "../" + c27CanaryTop, "b/../..", "a/../..", "/",
+		"@dg", "@d/dg2", "@p/missing.txt", "@d/l/missing.txt", "@d/l/" + c27Canary1, "@q"}
+	segs := []string{"..", "..", ".", "n", "missing.txt", "outside", "outside/" + c27Canary1, c27CanaryTop, "sub", "destX/x"}
 	hardT := []string{"f", "h", "a", "b", "a/b", "q", "p", "d/l/" + c27Canary1, "p/" + c27Canary1, "p/sub/" + c27Canary2, "../" + c27CanaryTop, "../outside/" + c27Canary1,
-		"$ABS/" + c27Canary1, "a/" + c27Canary1, "b/" + c27Canary1, "a/b/" + c27CanaryTop, "a/" + c27CanaryTop, "b/sub/" + c27Canary2}
+		"$ABS/" + c27Canary1, "a/" + c27Canary1, "b/" + c27Canary1, "a/b/" + c27CanaryTop, "a/" + c27CanaryTop, "b/sub/" + c27Canary2, "dg", "d/dg2", "r", "d/up", "d/r"}
 	modes := []int64{0, 0o644, 0o755, 0o4755, 0o777, 0o000, 0o600}
-	n := r.N(6000, 400000)
+	n := r.N(8000, 400000)
 	workers := 4
 	boxes := make(chan *c27Box, workers)
 	for w := 0; w < workers; w++ {
@@ -396,10 +502,33 @@ func TestVerif_C27(t *testing.T) {
 				e.Type = "other"
 			}
 			// bias towards building on what earlier entries made
-			if len(es) > 0 && rng.Chance(1, 3) {
+			if len(es) > 0 {
 				prev := es[rng.Intn(len(es))]
-				if prev.Type == "sym" || prev.Type == "dir" {
-					e.Name = prev.Name + "/" + verifkit.Pick(rng, []string{"b", "c", "x", c27Canary1, c27CanaryTop, "sub/" + c27Canary2})
+				switch y := rng.Intn(12); {
+				case y < 3: // a name below an earlier link / directory
+					if prev.Type == "sym" || prev.Type == "dir" {
+						e.Name = prev.Name + "/" + verifkit.Pick(rng, []string{"b", "c", "x", c27Canary1, c27CanaryTop, "sub/" + c27Canary2})
+					}
+				case y < 6: // a name EQUAL to an earlier (live or dangling) link
+					if prev.Type == "sym" {
+						e.Name = prev.Name
+					}
+				}
+				// a link target built from the name of an earlier entry plus ../. segments, so that
+				// it passes through that entry (dest-relative "@" form); mostly dangling
+				if (e.Type == "sym" || e.Type == "hard") && rng.Chance(1, 2) {
+					src := es[rng.Intn(len(es))]
+					if sn := filepath.Clean(src.Name); !filepath.IsAbs(sn) && !strings.HasPrefix(sn, "..") && !strings.Contains(sn, "$") {
+						t := sn
+						for k := rng.Range(1, 3); k > 0; k-- {
+							t += "/" + verifkit.Pick(rng, segs)
+						}
+						if e.Type == "sym" {
+							e.Target = "@" + t
+						} else {
+							e.Target = t
+						}
+					}
 				}
 			}
 			es = append(es, e)
@@ -417,4 +546,7 @@ func TestVerif_C27(t *testing.T) {
 	r.Require("extract_refused", 50)
 	r.Require("objects_created_in_dest", 1000)
 	r.Require("archives_plain", 100)
+	r.Require("symlink_target_through_earlier_link", 500)
+	r.Require("entry_named_like_earlier_symlink_reg", 200)
+	r.Require("entry_named_like_preexisting_dangling_link_reg", 100)
 }
